@@ -234,8 +234,11 @@ func (c *Config) flattenedKeys(opts *options) []string {
 	}
 
 	if c.IsDict() {
-		for _, v := range c.fields.dict() {
-			visit(v)
+		// in sorted order: what a reference evaluates to can depend on what was
+		// evaluated (and cached) before it
+		dict := c.fields.dict()
+		for _, k := range sortedKeys(dict) {
+			visit(dict[k])
 		}
 	} else if c.IsArray() {
 		for _, a := range c.fields.array() {
